@@ -23,6 +23,8 @@ def run(ctx, verdict):
     ctx.states += r["distinct"]
     ctx.transitions += r["generated"]
     gc.explore(ctx, verdict, "C16", cfg, case_extra=dict(sto=True))
+    if not ctx.quick:      # thorough: histories of 4 actions over four layouts (above), of 3 actions over all seven layouts
+        gc.explore(ctx, verdict, "C16", "GeomOps_C16_thorough_all.cfg", case_extra=dict(sto=True))
     # geom.Bounds and geom.Coord are cloneable too (Bounds specification, family "clone")
     out, r = vlib.model_a(ctx, "BoundsModel", "Bounds_clone_%s.cfg" % ("quick" if ctx.quick else "thorough"), ["CASE"], workers=8)
     bcases = sorted(out["CASE"], key=vlib.digest)
